@@ -85,15 +85,33 @@ def checkWireKey (h : List Item × List Item) (rib : Option Nat × Option Nat) :
   | some c => some c
   | none => cmp "bmp-post" (held h.2) rib.2
 
-/-- A key the table holds as a GR-retained (stale) route of an ended session is not judged: the
-    subscriber was told PeerDown for that session (DESIGN §4.0; retention is C10's subject). -/
-def checkKeys (cl : Key → String → String) (f : List Item × List Item → Option Nat × Option Nat → Option String) :
+/-- the last thing the subscriber was told about this (map, key) is the PeerDown of its peer -/
+def lastDn (h : List Item) : Bool := h.getLast? == some .dn
+
+/-- A key the table holds as a GR-retained (stale) route of an ended session: the subscriber may
+    hold nothing for it PROVIDED its own history says why — the PeerDown of that session was the
+    last thing it was told about the key (DESIGN §4.0: PeerDown clears the peer's entries;
+    retention is C10's subject), or (`quiet`) nothing about the key's peer was ever announced on
+    the connection.  A subscriber that subscribed after the session end was told nothing: it must
+    hold the retained route like any other. -/
+def staleOk (quiet : Bool) (h : List Item) (rib : Option Nat) : Bool :=
+  held h == rib || ((held h).isNone && (lastDn h || quiet))
+
+/-- the escape for one universe key of one subscriber (both maps, or the one requested) -/
+def escKey (maps : Bool × Bool) (nosnap quiet : Bool) (h : List Item × List Item) (rib : Option Nat × Option Nat) : Bool :=
+  (!maps.1 || staleOk quiet h.1 rib.1 || (nosnap && !touched h.1)) &&
+  (!maps.2 || staleOk quiet h.2 rib.2 || (nosnap && !touched h.2))
+
+/-- `stale` flags the keys the table holds as GR-retained routes; for those `esc` decides from the
+    subscriber's own history whether holding nothing is justified, everything else is judged. -/
+def checkKeys (cl : Key → String → String) (f : List Item × List Item → Option Nat × Option Nat → Option String)
+    (esc : Key → List Item × List Item → Option Nat × Option Nat → Bool) :
     Nat → List Key → List (List Item × List Item) → List (Option Nat × Option Nat) → List Bool → Option (Nat × String)
   | _, [], [], [], [] => none
   | pos, k :: ks, h :: hs, r :: rs, st :: sts =>
-      match (if st then none else f h r) with
-      | some c => some (pos, cl k c)
-      | none => checkKeys cl f (pos + 1) ks hs rs sts
+      match (if st && esc k h r then none else f h r) with
+      | some c => some (pos, cl k (if st then "retained-" ++ c else c))
+      | none => checkKeys cl f esc (pos + 1) ks hs rs sts
   | pos, _, _, _, _ => some (pos, "shape")
 
 /-- failure class on a BMP connection: a disagreement about a peer for which no PeerUp was ever
@@ -157,16 +175,18 @@ def checkSub (c : Case) (u : List Key) (rib : List (Option Nat × Option Nat)) (
   if s.kind == 1 then
     if !(s.wctl.all fun l => downsFollowUps l []) then some (0, "bmp-peerdown-without-peerup")
     else if !sessionsOk c then none
-    else checkKeys (wireCls c s.wctl) checkWireKey 0 u s.whist rib stale
+    else checkKeys (wireCls c s.wctl) checkWireKey
+      (fun key => escKey (true, true) false (s.wctl.getD key.peer []).isEmpty) 0 u s.whist rib stale
   else if s.kind == 2 then checkMrtKeys c 0 u s.whist rib
   else if s.kind == 3 || s.kind == 4 then
     if !(s.wctl.all fun l => downsFollowUps l []) then some (0, "watch-peerdown-without-peerup")
     else if !sessionsOk c then none
-    else checkKeys (wireCls c s.wctl) (checkWatchKey s.want (s.kind == 4)) 0 u s.whist rib stale
+    else checkKeys (wireCls c s.wctl) (checkWatchKey s.want (s.kind == 4))
+      (fun key => escKey (s.kind != 4, s.kind == 4) (!s.want) (s.wctl.getD key.peer []).isEmpty) 0 u s.whist rib stale
   else if !downsFollowUps s.fwd [] then some (0, "peerdown-without-peerup")
   else if !s.live then none     -- an unsubscribed subscriber is promised nothing more
   else if s.want && !(s.ctl.contains .eos) then some (0, "no-end-of-snapshot")
-  else checkKeys (cls c) (checkKey s.want) 0 u s.hist rib stale
+  else checkKeys (cls c) (checkKey s.want) (fun _ => escKey (true, true) (!s.want) false) 0 u s.hist rib stale
 
 def checkSubs (c : Case) (u : List Key) (rib : List (Option Nat × Option Nat)) (stale : List Bool) :
     Nat → List SubObs → Verdict
